@@ -255,6 +255,108 @@ def acpi_params(L, bmax=2, spmax=5, rz=True):
     return ps
 
 
+def mk_overlap(kind):
+    """Two calls issued in one yield (both in flight over the same flush; fresh instances / empty cache), then a
+    third, sequential call.  kind 0: acached_per_instance, 1: alru_cache(maxsize=2) function, 2: alru_cache method"""
+    def f(delay, *p):
+        dl = conc(delay, 3)
+        calls = []
+        for i in range(3):
+            inst, a, b, sp = p[4 * i:4 * i + 4]
+            calls.append((conc(inst, 2) if kind != 1 else 0, conc(a, 2), conc(b, 2), conc(sp, 6)))
+        rec.clear_fail()
+        prog.reset_globals()
+        _B.cur[0] = None
+        counter = [0]
+
+        def body(t, a, b, c):
+            counter[0] += 1
+            n = counter[0]
+            yield _It(a)
+            if dl == 1 and a == 0 or dl == 2 and a == 1:
+                yield _It(a)        # this execution finishes one flush later than the other one
+            return (n, t, a, b, c)
+
+        if kind == 1:
+            @alru_cache(maxsize=2)
+            @A()
+            def fn(a, b=1, *, c=2):
+                return (yield from body(0, a, b, c))
+            targets = [fn, fn]
+        else:
+            deco = acached_per_instance() if kind == 0 else alru_cache(maxsize=4)
+
+            class K(object):
+                def __init__(self, t):
+                    self.t = t
+
+                def __hash__(self):
+                    return 7 + self.t
+
+                def __eq__(self, other):
+                    return self is other
+
+                @deco
+                @A()
+                def m(self, a, b=1, *, c=2):
+                    return (yield from body(self.t, a, b, c))
+            ks = [K(0), K(1)]
+            targets = [ks[0].m, ks[1].m]
+        name = ["acached_per_instance", "alru_cache function", "alru_cache method"][kind]
+        got = {}
+
+        @A()
+        def root():
+            ts = [call_sp(targets[ii].asynq, sp, None, a, b, 2) for (ii, a, b, sp) in calls[:2]]
+            r = yield ts
+            got[0], got[1] = r
+
+        try:
+            root()
+            keys = [(ii, a, b, 2) for (ii, a, b, sp) in calls]
+            for j in (0, 1):
+                ii, a, b, c = keys[j]
+                g = got[j]
+                if g[1:] != (ii, a, b, 2):
+                    return rec.fail("%s: overlapping calls %s: call #%d received %r" % (name, calls[:2], j, g))
+            ran = counter[0]
+            if keys[0] != keys[1] and ran != 2:
+                return rec.fail("%s: two overlapping calls with different keys ran the body %d times" % (name, ran))
+            if ran not in (1, 2):
+                return rec.fail("%s: two overlapping calls ran the body %d times" % (name, ran))
+            before = counter[0]
+            ii, a, b, sp = calls[2]
+            g2 = call_sp(targets[ii], sp, None, a, b, 2)
+            cands = [got[j] for j in (0, 1) if keys[j] == keys[2]]
+            if cands:
+                if counter[0] != before or not any(g2 == cnd for cnd in cands):
+                    return rec.fail("%s: after overlapping calls %s the call %s is a hit in the reference cache "
+                                    "(stored %r) but ran the body %d times and returned %r" % (
+                                        name, calls[:2], calls[2], cands, counter[0] - before, g2))
+            else:
+                if counter[0] != before + 1 or g2 != (counter[0], ii, a, b, 2):
+                    return rec.fail("%s: after overlapping calls %s the call %s is a miss in the reference cache "
+                                    "but ran the body %d times and returned %r" % (
+                                        name, calls[:2], calls[2], counter[0] - before, g2))
+            rec.wit("paths")
+            if cands:
+                rec.wit("third_call_hit")
+            rec.done(("overlap", kind, dl, tuple(calls)), True)
+            return True
+        finally:
+            prog.reset_globals()
+    return f
+
+
+def overlap_params(kind, q):
+    ps = [I("delay", 0, 1 if q else 2)]
+    im = 0 if kind == 1 else 1
+    spm = [1, 2, 3] if q else [2, 3, 5]
+    for i in range(3):
+        ps += [I("inst%d" % i, 0, im), I("a%d" % i, 0, 1), I("b%d" % i, 1 if (i == 1 and q) else 0, 1), I("sp%d" % i, 0, spm[i])]
+    return ps
+
+
 def mk_alazy(L):
     def f(ttlsel, blocks, *p):
         """ops: 0 call, 1 dirty; clock: one symbolic non-decreasing positive reading per operation"""
@@ -358,6 +460,12 @@ def conds(tier):
                         family="acached_per_instance: raising bodies", encodes=ENC))
         out.append(Cond("alazy", mk_alazy(4), alazy_params(4), pin=3, builds=("C",), budget=300,
                         family="alazy_constant: call/dirty histories of length 4 under a symbolic clock", encodes=ENC))
+    for kind, nm in ((0, "acpi"), (1, "alru"), (2, "alru_method")):
+        out.append(Cond("overlap_" + nm, mk_overlap(kind), overlap_params(kind, q), pin=3, builds=("C",), budget=200 if q else 1200,
+                        family="%s: two calls in flight at the same time on an empty cache / fresh instances, then a "
+                               "third call" % nm, encodes=ENC))
+    if q:
+        pass
     else:
         out.append(Cond("alru", mk_alru(4), alru_params(4, 1, 1, 0, 3, False, 1, 1), pin=5, builds=("C",), budget=3000,
                         family="alru_cache on a function: 4 calls", encodes=ENC, extra_pre=["not blocks"],
